@@ -27,13 +27,15 @@ Nets == {"off", "unreachable", "honest", "serverError", "tampered", "tcbFails", 
 \*   xFails: only that one download gets an HTTP 503, the others are served honestly (the CRL ones need revocation checking on)
 \*   off: collateral not requested;  unreachable: requested, nothing answers;  honest / serverError (HTTP 503) / tampered (bad signature)
 Crl == {"off", "on", "onWithoutCollateral"}
+AnyVals == {"absent", "match", "mismatch"}   \* td_quote_body_policy.any_mr_td of the config file (there is no flag for it): absent / contains the quote's MR_TD / does not
+Retries == {"short", "zeroDelay", "negativeDelay", "zeroTimeout", "negativeTimeout"}   \* -timeout / -max_retry_delay as given on the command line
 Presents == {"plain", "quiet", "verbose", "stdin"}
 \*   how the run is presented: -quiet (nothing is written to stdout or stderr), -verbosity=2, or the quote on standard input (-in=-);
 \*   none of them takes part in the exit code
 
-Case == [field : Fields, cfg : Vals, flag : Vals, shape : Shapes, fmt : Formats, quote : Quotes, inform : Informs, roots : Roots, net : Nets, crl : Crl, present : Presents]
+Case == [field : Fields, cfg : Vals, flag : Vals, shape : Shapes, fmt : Formats, quote : Quotes, inform : Informs, roots : Roots, net : Nets, crl : Crl, present : Presents, cfgAny : AnyVals, retry : Retries]
 Base == [field |-> "mr_td", cfg |-> "absent", flag |-> "absent", shape |-> "full", fmt |-> "textproto", quote |-> "valid", inform |-> "bin",
-         roots |-> "flagGood", net |-> "off", crl |-> "off", present |-> "plain"]
+         roots |-> "flagGood", net |-> "off", crl |-> "off", present |-> "plain", cfgAny |-> "absent", retry |-> "short"]
 
 \* which values a shape lets the config carry
 CfgEffective(c) == IF c.shape \in {"none", "emptyFile", "policyEmpty", "noPolicy"} THEN "absent" ELSE c.cfg
@@ -56,7 +58,9 @@ VerifyFault(c) == \/ c.quote \in {"forged", "empty"}
                   \/ (c.net = "tampered")
 NetworkFault(c) == \/ c.net \in {"unreachable", "serverError", "tcbFails", "qeFails"}
                    \/ (c.net \in {"pckCrlFails", "rootCrlFails"} /\ c.crl = "on")
-PolicyFault(c) == Effective(c) = "mismatch"
+\* the config's allow-list stays in force whatever flags are given (a flag overrides the same field only)
+AnyEffective(c) == IF c.shape \in {"none", "emptyFile", "policyEmpty", "noPolicy"} THEN "absent" ELSE c.cfgAny
+PolicyFault(c) == Effective(c) = "mismatch" \/ AnyEffective(c) = "mismatch"
 
 \* C19: the exit codes a run may end with.  Without faults exactly 0; with one fault exactly its code; with several, the code of any fault
 \* present (the order of independent stages is not part of the property).
@@ -87,6 +91,8 @@ OtherDevs == {[Base EXCEPT !.shape = x] : x \in Shapes} \cup {[Base EXCEPT !.fmt
              \cup {[Base EXCEPT !.inform = x] : x \in Informs} \cup {[Base EXCEPT !.roots = x] : x \in Roots}
              \cup {[Base EXCEPT !.net = x] : x \in Nets} \cup {[Base EXCEPT !.net = x, !.crl = "on"] : x \in {"pckCrlFails", "rootCrlFails", "tcbFails"}} \cup {[Base EXCEPT !.crl = x, !.net = (IF x = "on" THEN "honest" ELSE "off")] : x \in Crl}
              \cup {[Base EXCEPT !.quote = q, !.inform = i] : q \in Quotes, i \in {"bin", "proto", "textproto"}}
+             \cup {[Base EXCEPT !.cfgAny = a, !.flag = f, !.cfg = g] : a \in AnyVals, f \in {"absent", "match"}, g \in {"absent", "match"}}
+             \cup {[Base EXCEPT !.retry = r, !.net = n] : r \in Retries, n \in {"off", "unreachable", "honest", "serverError"}}
              \cup {[Base EXCEPT !.present = x] : x \in Presents}
              \cup {[Base EXCEPT !.present = x, !.quote = q] : x \in Presents, q \in {"forged", "unparsable"}}      \* one failure of every exit class, however presented
              \cup {[Base EXCEPT !.present = x, !.net = "unreachable"] : x \in Presents}
@@ -111,5 +117,5 @@ Spec == Init /\ [][Next]_vars
 TypeOK == exit \in {-1, 0, 1, 2, 3, 4}
 ExitIsTruthful == exit # -1 => exit \in ExitSet(c)
 ZeroOnlyWhenAllHolds == exit = 0 => ~UsageFault(c) /\ ~ConvertFault(c) /\ ~VerifyFault(c) /\ ~NetworkFault(c) /\ ~PolicyFault(c)
-FlagOverridesConfig == exit = 0 => Effective(c) \in {"absent", "match"}
+FlagOverridesConfig == exit = 0 => Effective(c) \in {"absent", "match"} /\ AnyEffective(c) # "mismatch"
 =================================================================================
